@@ -4,17 +4,21 @@ From Raven Require Import Base.GoStr Base.GoStrFacts Model.Search.
 Import ListNotations.
 Local Open Scope Z_scope.
 
-(** a token the tokenizer returns unchanged: balanced quotes, and outside
-    quotes neither white space nor parentheses *)
-Fixpoint tok_scan (t : str) (inq : bool) : bool :=
+(** a token the tokenizer returns unchanged: balanced quotes, balanced
+    parentheses outside quotes, and white space only inside quotes or inside
+    parentheses.  [d] is the parenthesis depth (the tokenizer's inParens). *)
+Fixpoint tok_scan (t : str) (inq : bool) (d : Z) : bool :=
   match t with
-  | [] => negb inq
+  | [] => negb inq && (d =? 0)
   | c :: t' =>
-      if Ascii.eqb c dq then tok_scan t' (negb inq)
-      else if inq then tok_scan t' inq
-      else negb (Ascii.eqb c lpar) && negb (Ascii.eqb c rpar) && negb (is_space c) && tok_scan t' inq
+      if Ascii.eqb c dq then tok_scan t' (negb inq) d
+      else if inq then tok_scan t' inq d
+      else if Ascii.eqb c lpar then tok_scan t' inq (d + 1)
+      else if Ascii.eqb c rpar then (1 <=? d) && tok_scan t' inq (d - 1)
+      else if is_space c then (0 <? d) && tok_scan t' inq d
+      else tok_scan t' inq d
   end.
-Definition tok_ok (t : str) : bool := match t with [] => false | _ => tok_scan t false end.
+Definition tok_ok (t : str) : bool := match t with [] => false | _ => tok_scan t false 0 end.
 
 Lemma not_space_sp c : is_space c = false -> Ascii.eqb c sp || Ascii.eqb c tab = false.
 Proof.
@@ -23,28 +27,31 @@ Proof.
   rewrite H in K. simpl in K. now apply negb_true_iff in K.
 Qed.
 
-Lemma pst_tok t : forall rest cur inq,
-  tok_scan t inq = true -> pst (t ++ rest) cur inq 0 = pst rest (rev t ++ cur) false 0.
+Lemma pst_tok t : forall rest cur inq d,
+  tok_scan t inq d = true -> pst (t ++ rest) cur inq d = pst rest (rev t ++ cur) false 0.
 Proof.
-  induction t as [|c t IH]; intros rest cur inq H; simpl in H.
-  - apply negb_true_iff in H. subst. reflexivity.
-  - simpl app. simpl pst. destruct (Ascii.eqb c dq) eqn:Edq.
-    + rewrite IH by exact H. simpl. now rewrite <- app_assoc.
+  induction t as [|c t IH]; intros rest cur inq d H; cbn [tok_scan] in H.
+  - apply andb_true_iff in H as [H1 H2]. apply negb_true_iff in H1. apply Z.eqb_eq in H2. subst. reflexivity.
+  - cbn [app pst]. destruct (Ascii.eqb c dq) eqn:Edq.
+    + rewrite IH by exact H. cbn [rev]. now rewrite <- app_assoc.
     + destruct inq.
       * (* inside quotes: everything is appended, the paren counter stays *)
-        destruct (Ascii.eqb c lpar); [rewrite IH by exact H; simpl; now rewrite <- app_assoc|].
-        destruct (Ascii.eqb c rpar); [rewrite IH by exact H; simpl; now rewrite <- app_assoc|].
-        destruct (Ascii.eqb c sp || Ascii.eqb c tab); simpl; rewrite IH by exact H; simpl; now rewrite <- app_assoc.
-      * apply andb_true_iff in H as [H H4]. apply andb_true_iff in H as [H H3].
-        apply andb_true_iff in H as [H1 H2].
-        apply negb_true_iff in H1, H2, H3. rewrite H1, H2, (not_space_sp _ H3).
-        rewrite IH by exact H4. simpl. now rewrite <- app_assoc.
+        destruct (Ascii.eqb c lpar); [rewrite IH by exact H; cbn [rev]; now rewrite <- app_assoc|].
+        destruct (Ascii.eqb c rpar); [rewrite IH by exact H; cbn [rev]; now rewrite <- app_assoc|].
+        destruct (Ascii.eqb c sp || Ascii.eqb c tab); cbn [orb]; rewrite IH by exact H; cbn [rev]; now rewrite <- app_assoc.
+      * destruct (Ascii.eqb c lpar) eqn:El; [rewrite IH by exact H; cbn [rev]; now rewrite <- app_assoc|].
+        destruct (Ascii.eqb c rpar) eqn:Er.
+        { apply andb_true_iff in H as [_ H]. rewrite IH by exact H. cbn [rev]. now rewrite <- app_assoc. }
+        destruct (is_space c) eqn:Es.
+        { apply andb_true_iff in H as [Hd H]. cbn [orb]. rewrite Hd.
+          destruct (Ascii.eqb c sp || Ascii.eqb c tab); rewrite IH by exact H; cbn [rev]; now rewrite <- app_assoc. }
+        rewrite (not_space_sp _ Es). rewrite IH by exact H. cbn [rev]. now rewrite <- app_assoc.
 Qed.
 
 Lemma tok_ok_nonempty t : tok_ok t = true -> t <> [].
 Proof. destruct t; [discriminate | discriminate]. Qed.
 
-Lemma tok_ok_scan t : tok_ok t = true -> tok_scan t false = true.
+Lemma tok_ok_scan t : tok_ok t = true -> tok_scan t false 0 = true.
 Proof. destruct t; [discriminate | trivial]. Qed.
 
 Lemma pst_join toks : forallb tok_ok toks = true -> pst (join toks [sp]) [] false 0 = toks.
@@ -61,6 +68,45 @@ Proof.
     simpl pst. destruct (rev t) eqn:E.
     + apply (f_equal (@rev _)) in E. rewrite rev_involutive in E. simpl in E. subst. discriminate.
     + rewrite <- E, rev_involutive. f_equal. apply IH. exact H.
+Qed.
+
+(** scanning a complete token leaves the state where it was *)
+Lemma scan_app t : forall r inq d e, 0 <= e ->
+  tok_scan t inq d = true -> tok_scan (t ++ r) inq (d + e) = tok_scan r false e.
+Proof.
+  induction t as [|c t IH]; intros r inq d e He H; cbn [tok_scan] in H.
+  - apply andb_true_iff in H as [H1 H2]. apply negb_true_iff in H1. apply Z.eqb_eq in H2. subst. reflexivity.
+  - cbn [app tok_scan]. destruct (Ascii.eqb c dq); [now apply IH|].
+    destruct inq; [now apply IH|].
+    destruct (Ascii.eqb c lpar).
+    { replace (d + e + 1) with (d + 1 + e) by lia. now apply IH. }
+    destruct (Ascii.eqb c rpar).
+    { apply andb_true_iff in H as [Hd H]. apply Z.leb_le in Hd.
+      replace (1 <=? d + e) with true by (symmetry; apply Z.leb_le; lia).
+      replace (d + e - 1) with (d - 1 + e) by lia. now apply IH. }
+    destruct (is_space c).
+    { apply andb_true_iff in H as [Hd H]. apply Z.ltb_lt in Hd.
+      replace (0 <? d + e) with true by (symmetry; apply Z.ltb_lt; lia). now apply IH. }
+    now apply IH.
+Qed.
+
+Lemma scan_join toks : forall r e, 1 <= e -> forallb tok_ok toks = true ->
+  tok_scan (join toks [sp] ++ r) false e = tok_scan r false e.
+Proof.
+  induction toks as [|t toks IH]; intros r e He H; [reflexivity|].
+  cbn [forallb] in H. apply andb_true_iff in H as [Ht H]. apply tok_ok_scan in Ht.
+  destruct toks as [|t2 toks].
+  - cbn [join]. exact (scan_app t r false 0 e ltac:(lia) Ht).
+  - change (join (t :: t2 :: toks) [sp]) with (t ++ sp :: join (t2 :: toks) [sp]).
+    rewrite <- app_assoc. rewrite (scan_app t _ false 0 e ltac:(lia) Ht).
+    cbn [app tok_scan]. replace (0 <? e) with true by (symmetry; apply Z.ltb_lt; lia).
+    cbn. now apply IH.
+Qed.
+
+(** a parenthesised list of complete tokens is one complete token *)
+Lemma group_tok toks : forallb tok_ok toks = true -> tok_ok (lpar :: join toks [sp] ++ [rpar]) = true.
+Proof.
+  intros H. unfold tok_ok. cbn [tok_scan]. cbn. rewrite (scan_join toks [rpar] 1 ltac:(lia) H). reflexivity.
 Qed.
 
 Lemma parse_print toks : forallb tok_ok toks = true -> parse_search_tokens (join toks [sp]) = toks.
